@@ -378,25 +378,7 @@ func (x *fx) havocAllMem(tagp string) {
 	pre := x.curMem
 	x.curMem = h
 	x.noteHavocAll()
-	if keeps := x.c.CallKeeps["*"]; len(keeps) > 0 && !x.keepAllInit {
-		x.keepAllInit = true
-		env := x.paramEnv(x.entryMem)
-		for _, e := range keeps {
-			func() {
-				// an expression over locals does not bind at entry: it is
-				// evaluated at each call instead (where it binds)
-				defer func() {
-					if r := recover(); r != nil {
-						if _, ok := r.(specErr); !ok {
-							panic(r)
-						}
-						x.keepAllLocal = append(x.keepAllLocal, e)
-					}
-				}()
-				x.keepAllRegs = append(x.keepAllRegs, x.regionsOf(e, env)...)
-			}()
-		}
-	}
+	x.initKeepAll()
 	regs := x.keepAllRegs
 	if len(x.keepAllLocal) > 0 && x.curInstr != nil {
 		x.curMem = pre
@@ -426,6 +408,33 @@ func (x *fx) havocAllMem(tagp string) {
 	}
 }
 
+
+// initKeepAll evaluates the keepsall regions that bind at function entry (over
+// parameters); expressions over locals are kept aside and evaluated per call.
+func (x *fx) initKeepAll() {
+	keeps := x.c.CallKeeps["*"]
+	if len(keeps) == 0 || x.keepAllInit {
+		return
+	}
+	x.keepAllInit = true
+	save := x.curMem
+	x.curMem = x.entryMem
+	env := x.paramEnv(x.entryMem)
+	for _, e := range keeps {
+		func() {
+			defer func() {
+				if r := recover(); r != nil {
+					if _, ok := r.(specErr); !ok {
+						panic(r)
+					}
+					x.keepAllLocal = append(x.keepAllLocal, e)
+				}
+			}()
+			x.keepAllRegs = append(x.keepAllRegs, x.regionsOf(e, env)...)
+		}()
+	}
+	x.curMem = save
+}
 
 func (x *fx) staticCall(f *ssa.Function, bindings []ssa.Value, cc *ssa.CallCommon, rt types.Type, set func(*Val)) {
 	var args []*Val
@@ -704,6 +713,23 @@ func (x *fx) applyContract(c2 *Contract, f *ssa.Function, sig *types.Signature, 
 
 // regionsOf evaluates a modifies designator.
 func (x *fx) regionsOf(e *Expr, env *specEnv) []region {
+	// allof(T.f): field f of every object of the struct type T of this package
+	// (only meaningful in callkeeps / keepsall)
+	if e.Op == "call" && len(e.Args) == 2 && e.Args[0].Op == "id" && e.Args[0].Name == "allof" && e.Args[1].Op == "field" && e.Args[1].Args[0].Op == "id" {
+		tn, fn := e.Args[1].Args[0].Name, e.Args[1].Name
+		if env.pkg != nil {
+			if o, ok := env.pkg.Scope().Lookup(tn).(*types.TypeName); ok {
+				if st, ok := o.Type().Underlying().(*types.Struct); ok {
+					for k := 0; k < st.NumFields(); k++ {
+						if st.Field(k).Name() == fn {
+							return []region{{mem: x.fieldMemName(o.Type(), st, k), ref: "*all*", lo: x.idxConst(0), hi: x.idxConst(0)}}
+						}
+					}
+				}
+			}
+		}
+		panic(specErr("allof(" + tn + "." + fn + "): no such struct field"))
+	}
 	if e.Op == "id" && env.look(e.Name) == nil {
 		if gv, ok := x.g.ghosts[e.Name]; ok {
 			name, _ := x.ghostMem(gv)
@@ -1091,6 +1117,10 @@ func (x *fx) callOrdinal(i *ssa.Call, name string) int {
 // keepRegion: region r has the same contents in memory versions newV and oldV.
 // Single-cell regions (fields of one struct object) need no quantifier.
 func (x *fx) keepRegion(r region, newV, oldV string) string {
+	if r.ref == "*all*" {
+		// allof(T.f): the field f of EVERY object of type T
+		return "(= " + newV + " " + oldV + ")"
+	}
 	if r.hi == x.iadd(r.lo, x.idxConst(1)) {
 		return fmt.Sprintf("(= (select (select %s %s) %s) (select (select %s %s) %s))", newV, r.ref, r.lo, oldV, r.ref, r.lo)
 	}
